@@ -27,20 +27,22 @@ CONSTANTS
   WorkerCpus,      \* [w -> cpus]  (1/10000 units) workers connected from the start
   WorkerGroup,     \* [w -> group name]
   Menu,            \* Seq of submits: [job, tasks : Seq([id, deps, rq, prio]), climit, maxFails]
+  OpenJobs,        \* [j -> job failure limit] : jobs created by `job open`; a menu entry naming such a job is attached to it
   Classes,         \* the `classes` value (Seq of Seq of variants)
   MaxLosses, MaxCancels, MaxFails, MaxLaunchFails,
   PfReserve, PfMax, \* proactive filling configuration (SchedulerConfig)
   Journaling,      \* TRUE: the model keeps the journal (history variable; small instances only) and the restore invariants apply
   Eager            \* TRUE: the scheduler leaves no task behind that still fits somewhere (assumption used for C02)
 
-VARIABLES panic, wkq, submitted, budget, armedFail, drift, journal
+VARIABLES panic, wkq, submitted, budget, armedFail, drift, journal, late
 \* wkq[w][rq] : Seq([t, inst]) worker backlog of pre-sent tasks in arrival order (popped from the end)
 \* submitted  : menu indices already used;  budget : remaining faults / client requests
 \* armedFail  : tasks whose next launch fails
 \* journal    : what the event sink wrote, in order (Submit, TaskStarted, ..., WorkerLost, JobCompleted); <<>> unless Journaling
+\* late       : tasks submitted when a (transitive) dependency had already ended failed / canceled / aborted (monitor for C03)
 \* drift      : workers on which a promoted pre-sent task found less free resources booked than it needs (monitor for C05)
 
-mvars == <<vars, panic, wkq, submitted, budget, armedFail, drift, journal>>
+mvars == <<vars, panic, wkq, submitted, budget, armedFail, drift, journal, late>>
 
 NoPanic == panic = ""
 
@@ -452,6 +454,7 @@ Commit(C, J) ==
   /\ panic' = IF C.pn # "" THEN C.pn ELSE J.pn
   /\ drift' = C.drift \cap DOMAIN C.srv
   /\ journal' = IF Journaling THEN journal \o J.ev ELSE journal
+  /\ late' = late
 
 -----------------------------------------------------------------------------
 (* Initial state *)
@@ -465,7 +468,7 @@ Init ==
   /\ fut = {} /\ job = <<>> /\ streams = <<>> /\ now = 0 /\ classes = Classes
   /\ tinfo = <<>> /\ hist = <<>> /\ wstarts = <<>> /\ ranOk = {} /\ tstops = {} /\ cancelAck = <<>> /\ wCancel = {} /\ gaveBack = {}
   /\ nCompleted = <<>> /\ mustCrash = <<>> /\ mayCrash = <<>> /\ exceeded = {}
-  /\ panic = "" /\ submitted = {} /\ armedFail = {} /\ drift = {} /\ journal = <<>>
+  /\ panic = "" /\ submitted = {} /\ armedFail = {} /\ drift = {} /\ journal = <<>> /\ late = {}
   /\ budget = [losses |-> MaxLosses, cancels |-> MaxCancels, fails |-> MaxFails, launchFails |-> MaxLaunchFails]
 
 unchangedWorkerSide == UNCHANGED <<wkq, fut, wstarts, ranOk, tstops, wCancel, gaveBack, armedFail>>
@@ -477,25 +480,53 @@ ClientSubmit(i) ==
   /\ panic = "" /\ i \in DOMAIN Menu /\ i \notin submitted
   /\ LET s == Menu[i]
          j == s.job
+         attach == j \in DOMAIN OpenJobs
+         mf == IF attach THEN OpenJobs[j] ELSE s.maxFails
          ids == [k \in DOMAIN s.tasks |-> j * 1000 + s.tasks[k].id]
          ni == [t \in SeqSet(ids) |->
                   LET x == CHOOSE x \in SeqSet(s.tasks) : j * 1000 + x.id = t IN
-                  [job |-> j, deps |-> {j * 1000 + d : d \in x.deps}, prio |-> x.prio, rq |-> x.rq, climit |-> s.climit, tlimit |-> 0, maxFails |-> s.maxFails]]
-         jb == [open |-> FALSE, completed |-> FALSE, n |-> Len(ids), maxFails |-> s.maxFails,
-                cnt |-> [running |-> 0, finished |-> 0, failed |-> 0, canceled |-> 0, aborted |-> 0],
-                tasks |-> [t \in SeqSet(ids) |-> "Waiting"]]
+                  [job |-> j, deps |-> {j * 1000 + d : d \in x.deps}, prio |-> x.prio, rq |-> x.rq, climit |-> s.climit, tlimit |-> 0, maxFails |-> mf]]
+         jb == IF attach THEN [job[j] EXCEPT !.n = @ + Len(ids), !.tasks = [t \in SeqSet(ids) |-> "Waiting"] @@ @]
+               ELSE [open |-> FALSE, completed |-> FALSE, n |-> Len(ids), maxFails |-> mf,
+                     cnt |-> [running |-> 0, finished |-> 0, failed |-> 0, canceled |-> 0, aborted |-> 0],
+                     tasks |-> [t \in SeqSet(ids) |-> "Waiting"]]
          C == OnNewTasks(CoreRec, ids, ni)
-     IN /\ tinfo' = ni @@ tinfo
+         info2 == ni @@ tinfo
+         \* a new task is "late" when an ancestor had already ended badly (or is itself late): on_new_tasks drops the dependency
+         RECURSIVE Anc(_, _)
+         Anc(S, acc) == LET nxt == (UNION {info2[c].deps : c \in S} \cap DOMAIN info2) \ acc IN IF nxt = {} THEN acc ELSE Anc(nxt, acc \cup nxt)
+         dead(a) == a \in late \/ (a \in DOMAIN hist /\ Out(a) \in {"Failed", "Canceled", "Aborted"})
+     IN /\ (attach => j \in DOMAIN job /\ job[j].open)          \* (a submit into a closed / unknown job is rejected without effect)
+        /\ (~attach => j \notin DOMAIN job)
+        \* validate_submit: every dependency is an earlier task of the same submit or a task the job already has
+        /\ \A k \in DOMAIN s.tasks : \A d \in s.tasks[k].deps :
+              \/ \E k2 \in 1..(k - 1) : s.tasks[k2].id = d
+              \/ attach /\ j * 1000 + d \in DOMAIN job[j].tasks
+        /\ tinfo' = info2
         /\ submitted' = submitted \cup {i}
         /\ task' = C.task /\ queue' = C.queue /\ redirect' = C.redirect /\ srv' = C.srv /\ needSched' = C.ns
         /\ job' = (j :> jb) @@ job /\ panic' = C.pn
         /\ hist' = [t \in DOMAIN ni |-> <<>>] @@ hist
         /\ wstarts' = [t \in DOMAIN ni |-> <<>>] @@ wstarts
         /\ mustCrash' = [t \in DOMAIN ni |-> 0] @@ mustCrash /\ mayCrash' = [t \in DOMAIN ni |-> 0] @@ mayCrash
-        /\ nCompleted' = (j :> 0) @@ nCompleted
+        /\ nCompleted' = IF attach THEN nCompleted ELSE (j :> 0) @@ nCompleted
         /\ wk' = [w \in DOMAIN wk |-> [wk[w] EXCEPT !.s2w = @ \o C.out[w]]]
         /\ journal' = IF Journaling THEN Append(journal, [k |-> "Submit", j |-> j, i |-> i]) ELSE journal
+        /\ late' = late \cup {t \in DOMAIN ni : \E a \in Anc({t}, {}) : dead(a)}
   /\ UNCHANGED <<exceeded, wkq, fut, ranOk, tstops, wCancel, gaveBack, armedFail, cancelAck, budget, drift>> /\ unchangedStatic
+
+(* Client: open a job / close it (a closed job completes when all its tasks are terminal - possibly at once) *)
+ClientOpen(j) ==
+  /\ panic = "" /\ j \in DOMAIN OpenJobs /\ j \notin DOMAIN job
+  /\ job' = (j :> [open |-> TRUE, completed |-> FALSE, n |-> 0, maxFails |-> OpenJobs[j],
+                    cnt |-> [running |-> 0, finished |-> 0, failed |-> 0, canceled |-> 0, aborted |-> 0], tasks |-> <<>>]) @@ job
+  /\ nCompleted' = (j :> 0) @@ nCompleted
+  /\ UNCHANGED <<coreVars, wk, fut, streams, now, classes, tinfo, hist, wstarts, ranOk, tstops, cancelAck, wCancel, gaveBack, mustCrash, mayCrash,
+                  exceeded, panic, wkq, submitted, budget, armedFail, drift, journal, late>>
+ClientClose(j) ==
+  /\ panic = "" /\ j \in DOMAIN job /\ job[j].open
+  /\ Commit(CoreRec, CheckTermination([JobRec EXCEPT !.job[j].open = FALSE], j))
+  /\ UNCHANGED <<wk, tinfo, submitted, budget, cancelAck, mustCrash, mayCrash>> /\ unchangedWorkerSide /\ unchangedStatic
 
 (* Client: cancel a job (core first, then the job layer; the answer covers the tasks that were not terminal) *)
 ClientCancel(j) ==
@@ -776,7 +807,7 @@ WkRecv(w) ==
                IN /\ WCommit(W2, w, rest)
                   /\ wCancel' = wCancel \cup {<<w, t>> : t \in ids}
                   /\ UNCHANGED <<gaveBack>>
-  /\ UNCHANGED <<coreVars, job, tinfo, hist, ranOk, cancelAck, nCompleted, exceeded, mustCrash, mayCrash, panic, submitted, budget, drift, journal>> /\ unchangedStatic
+  /\ UNCHANGED <<coreVars, job, tinfo, hist, ranOk, cancelAck, nCompleted, exceeded, mustCrash, mayCrash, panic, submitted, budget, drift, journal, late>> /\ unchangedStatic
 
 \* the (fake) task future of execution f ends, successfully or with an error
 TaskExit(f, ok) ==
@@ -785,7 +816,7 @@ TaskExit(f, ok) ==
         WCommit(WTaskEnd(WRec(f.w), f.w, x, IF ok THEN "Finished" ELSE "Failed"), f.w, wk[f.w].s2w)
   /\ ranOk' = IF ok THEN ranOk \cup {[t |-> f.t, w |-> f.w, inst |-> f.inst]} ELSE ranOk
   /\ budget' = IF ok THEN budget ELSE [budget EXCEPT !.fails = @ - 1]
-  /\ UNCHANGED <<coreVars, job, tinfo, hist, cancelAck, nCompleted, exceeded, mustCrash, mayCrash, panic, submitted, wCancel, gaveBack, drift, journal>> /\ unchangedStatic
+  /\ UNCHANGED <<coreVars, job, tinfo, hist, cancelAck, nCompleted, exceeded, mustCrash, mayCrash, panic, submitted, wCancel, gaveBack, drift, journal, late>> /\ unchangedStatic
 
 \* the launch of a task that is on its way to a worker will fail
 ArmLaunchFail(t) ==
@@ -793,7 +824,7 @@ ArmLaunchFail(t) ==
   /\ \E w \in DOMAIN wk : \E i \in DOMAIN wk[w].s2w : wk[w].s2w[i].k = "Compute" /\ \E k \in DOMAIN wk[w].s2w[i].tasks : wk[w].s2w[i].tasks[k].t = t
   /\ armedFail' = armedFail \cup {t}
   /\ budget' = [budget EXCEPT !.launchFails = @ - 1]
-  /\ UNCHANGED <<vars, panic, wkq, submitted, drift, journal>>
+  /\ UNCHANGED <<vars, panic, wkq, submitted, drift, journal, late>>
 
 -----------------------------------------------------------------------------
 (* Worker loss (connection closed; fail = the loss counts as a crash of the tasks running there) *)
@@ -819,6 +850,7 @@ LoseWorker(w, fail) ==
 Next ==
   \/ \E i \in DOMAIN Menu : ClientSubmit(i)
   \/ \E j \in DOMAIN job : ClientCancel(j)
+  \/ \E j \in DOMAIN OpenJobs : ClientOpen(j) \/ ClientClose(j)
   \/ Schedule
   \/ \E w \in DOMAIN wk : SrvRecv(w) \/ WkRecv(w)
   \/ \E f \in fut : TaskExit(f, TRUE) \/ TaskExit(f, FALSE)
@@ -908,10 +940,20 @@ J_DepsConsistent ==
   \A p \in JPrefixes : LET R == Restore(p) IN
      \A t \in RPending(R) : \A d \in tinfo[t].deps : RView(R, d).st \notin {"Failed", "Canceled", "Aborted"}
 
+(* C03 on the model.  Known finding dependent-submitted-after-dep-ended: a later submit into an open job may name a     *)
+(* dependency that already ended failed / canceled / aborted; on_new_tasks drops it silently and the dependent runs.   *)
+(* The model reproduces it (monitor `late`); every other way of starting a dependent of a dead task is excluded.      *)
+C03_NeverStartedAfterFailedDepModLate ==
+  \A t \in AllTasks : Out(t) \in {"Failed", "Canceled"} =>
+     \A c \in TransConsumers(t) \ late : \A i \in DOMAIN wstarts[c] : ~wstarts[c][i].ok
+C03_PropagateAtRestModLate ==
+  Quiescent => \A t \in AllTasks : Out(t) \in {"Failed", "Canceled"} =>
+     \A c \in TransConsumers(t) \ late : Out(c) \in {"Aborted", "Canceled"}
+
 (* step properties *)
 \* C03: an execution starts only after every dependency has finished
 C03_NoEarlyStartStep ==
-  \A t \in DOMAIN wstarts : Len(wstarts'[t]) > Len(wstarts[t]) /\ Last(wstarts'[t]).ok =>
+  \A t \in DOMAIN wstarts \ late : Len(wstarts'[t]) > Len(wstarts[t]) /\ Last(wstarts'[t]).ok =>
      \A d \in tinfo[t].deps : d \in DOMAIN hist /\ Out(d) = "Finished"
 \* C08: a worker that has processed the cancel of a task never starts it afterwards (also not from its backlog)
 C08_NoStartAfterCancelSeenStep ==
